@@ -31,7 +31,9 @@ LANGS = ["Ab", "aB", "ab", "AB", "b", "B", "German", "german", "GERMAN", "Éire"
          "Gua\u0303a", "Gu\u00e3a", "Ko\u0308ln", "E\u0301ire"]
 CONCEPTS = ["hand", "Hand", "HAND", "foot", "Foot", "arm", "Über", "über", "Ärm", "I", "i", "eye",
             "the eye", "Eye", "cafe\u0301", "caf\u00e9", "o\u0308l", "ma\u0303o"]
-IPA = ["", "hant", "hand", "fus", "fut", "a", "A", "æ", "bɔ", "x y", "10", "0", "1"]
+# values that differ by unicode normalisation form only are DIFFERENT values (decomposed first, composed second)
+TWINS = [("pe\u0301re", "p\u00e9re"), ("ma\u0303o", "m\u00e3o"), ("o\u0308", "\u00f6")]
+IPA = ["", "hant", "hand", "fus", "fut", "a", "A", "æ", "bɔ", "x y", "10", "0", "1", TWINS[0][0], TWINS[0][1]]
 TOK = ["h", "a", "n", "t", "ɔ", "f", "u"]
 SPELL = {"doculect": ["doculect", "language", "taxa", "taxon"],
          "concept": ["gloss", "concept", "concepts"],
@@ -60,13 +62,13 @@ def gen_value(rng, kind, cset=None):
             return 0
         if c < 0.94:
             return ""
-        return rng.choice(["a", "b", "1"])
+        return rng.choice(["a", "b", "1", TWINS[1][0], TWINS[1][1]])
     if kind == "ints":
         return [rng.choice(cset) for _ in range(rng.choice([0, 1, 1, 2, 2, 3]))]
     if kind == "strs":
         return [rng.choice(TOK) for _ in range(rng.choice([0, 1, 2, 3]))]
     if kind == "note":
-        return rng.choice(["", "x", "y", "X", 3, "3"])
+        return rng.choice(["", "x", "y", "X", 3, "3", TWINS[2][0], TWINS[2][1]])
     raise ValueError(kind)
 
 
@@ -107,6 +109,9 @@ def gen_case(rng, size=4, source=None):
     ids = rng.sample(range(1, 90), len(slots))
     if rng.random() < 0.3:
         ids.sort()
+    if rng.random() < 0.12:                                   # huge row ids (beyond 32 bit)
+        for i in rng.sample(range(len(ids)), rng.choice([1, min(2, len(ids))])):
+            ids[i] = rng.choice([2 ** 31 - 1, 2 ** 31, 2 ** 31 + 5, 2 ** 32 + 7, 2 ** 33 + 1, 2 ** 40 + 3]) + 16 * i
     cross = rng.random() < 0.35                               # cognate sets spanning several concepts
     rows = []
     for rid, (ci, c, l) in zip(ids, slots):
@@ -134,6 +139,20 @@ def gen_case(rng, size=4, source=None):
             else:
                 cells.append(gen_value(rng, col))
         rows.append([rid, cells])
+    prefer = None
+    if source == "dict" and len(rows) >= 2 and rng.random() < 0.15:
+        # both spellings of a twin in one column, which the history is then likely to renumber
+        prefer = rng.choice([c for c in ("ipa", "cogid", "note") if c in cols])
+        a, b = rng.sample(range(len(rows)), 2)
+        tw = rng.choice(TWINS)
+        rows[a][1][cols.index(prefer)], rows[b][1][cols.index(prefer)] = tw[0], tw[1]
+    if source == "file":                                      # read_qlc NFC-normalises every line
+        import unicodedata
+
+        def nfc(v):
+            return [nfc(x) for x in v] if isinstance(v, list) else (
+                unicodedata.normalize("NFC", v) if isinstance(v, str) else v)
+        rows = [[rid, [nfc(c) for c in cells]] for rid, cells in rows]
     kind = "valid"
     c = rng.random()
     if source == "dict" and c < 0.03:
@@ -164,7 +183,7 @@ def gen_case(rng, size=4, source=None):
                 case["meta"].append([k, rng.choice(["x", "some text", "Zulu"])])
             else:
                 case["meta"].append([k, rng.sample(LANGS[:14], rng.choice([1, 2, 3]))])
-    ops, cols_after, news, focus = gen_ops(rng, cols, rows, source)
+    ops, cols_after, news, focus = gen_ops(rng, cols, rows, source, prefer=prefer)
     case["ops"] = ops
     case["focus"] = focus
     case["q0"] = gen_queries(rng, cols, [], focus=focus, case=case)
@@ -236,7 +255,8 @@ def key_of(v):
     return ("L",) + tuple(v) if isinstance(v, list) else ("A", type(v).__name__, v)
 
 
-NEWVALS = {"cogid": [0, 4, 5, 77, "", "a"], "ipa": ["", "!x", "zz", "hant", "a"], "note": ["", "!", "x", "zz", 3],
+NEWVALS = {"cogid": [0, 4, 5, 77, "", "a", TWINS[1][0], TWINS[1][1]], "ipa": ["", "!x", "zz", "hant", "a", TWINS[0][0], TWINS[0][1]],
+           "note": ["", "!", "x", "zz", 3, TWINS[2][0], TWINS[2][1]],
            "cogids": [[], [1], [5, 5], [2, 77]], "tokens": [[], ["h"], ["u", "f"]], "newid": [0, 1, 9], "cogidid": [0, 1, 9]}
 
 
@@ -329,7 +349,7 @@ class _Hist:
         return True
 
 
-def gen_ops(rng, cols, rows, source):
+def gen_ops(rng, cols, rows, source, prefer=None):
     """The history: add_entries / renumber / wl[id, col] = v steps.  Returns (ops, column names after every
     step, new column names of every step, focus columns)."""
     h = _Hist(rng, cols, rows, source)
@@ -337,6 +357,9 @@ def gen_ops(rng, cols, rows, source):
     scen = rng.random()
     if not h.ids:
         return [], [], [], []
+    if prefer and rng.random() < 0.75:                        # renumber the column that holds the twin values
+        h.renum(prefer, rng.choice(["", "newid"]), False)
+        scen = 0.5 + scen / 2                                 # then a random history
     if scen < 0.22:
         # a column is read (every snapshot reads the focus columns), changed in place, and read again
         col = rng.choice(free)
@@ -419,7 +442,7 @@ class Codes:
             raise ValueError("bool cell")
         if isinstance(v, (int, np.integer)):
             v = int(v)
-            if not -1000 < v < 1000:
+            if not (-1000 < v < 1000 or v >= 2 ** 20):        # small numbers and huge row ids; codes of strings lie between
                 raise ValueError("integer out of coding range: %r" % v)
             return v
         if isinstance(v, str):
@@ -850,6 +873,11 @@ def classify(case, res):
     if case.get("meta"):
         out.append("meta-collides")
     out.append("multi=" + case.get("multi", "list"))
+    if any(r[0] >= 2 ** 31 - 1 for r in case["rows"]):
+        out.append("huge-ids")
+    flat = [c for r in case["rows"] for c in r[1] if isinstance(c, str)]
+    if any(a in flat and b in flat for a, b in TWINS):
+        out.append("nfc-nfd-twin-values")
     for op in case["ops"]:
         out.append("op=" + op["kind"] + ("-override" if op.get("override") else ""))
     if case.get("focus"):
